@@ -36,7 +36,7 @@ fn prefix_corruptions(w2: &crate::w2::W2Prog) -> Vec<Item> {
     v
 }
 
-const WORLD_DIMS: &[&str] = &["rand", "cwd_name", "rel", "file_name", "spelling", "stdout", "merged"];
+const WORLD_DIMS: &[&str] = &["rand", "cwd_name", "rel", "file_name", "spelling", "stdout", "merged", "flock", "script_mode"];
 
 fn pick_program(ctx: &Ctx, rng: &mut Rng) -> programs::Picked {
     match rng.below(10) {
@@ -79,7 +79,7 @@ impl Property for C03 {
         "fault_enumeration"
     }
     fn runs(&self, tier: &str) -> u64 {
-        if tier == "thorough" { 1_500_000 } else { 40_000 }
+        if tier == "thorough" { 3_000_000 } else { 40_000 }
     }
     fn rule(&self) -> String {
         "thorough tier additionally enumerates, for every corpus script up to 1536 bytes, truncation at every byte offset and an invalid UTF-8 byte at every byte offset, and, for 1500 small generated programs, every corruption of an inter-token space after the first print statement into an illegal character or a stray comma (up to 240 per program); sampled cases: case = (printing program from W1 | W2) x (delivery mode: chunked reads at PRNG boundaries incl. inside multi-byte characters, wrong size hint, EINTR bursts | read error at the n-th read | open error (7 injected errnos; or refused by the kernel itself: trailing slash, directory, symlink loop, missing file, path longer than PATH_MAX) | getcwd error | stored byte replaced by an invalid UTF-8 byte at a PRNG offset | inter-token space replaced by a character no token starts with, or - outside all brackets - by a ',' that makes a syntax error (W2 only) | truncated delivery at a PRNG offset); oracle: invisible deliveries => reference transcript; read/open/cwd/encoding faults => empty stdout, no fd-1 write attempted, exit 103, exactly one stderr line starting with argv[1]; lexical corruption => same plus located form with line <= lines+1; truncation => exit in {0,103}, stderr empty iff exit 0, located line bound; on every run all script reads and the close precede the first stdout write; non-trivial = fault/delivery event fired; distinct = distinct (program, world, plan)".to_string()
@@ -416,7 +416,7 @@ impl Property for C03 {
             out.cells.push(format!("delivery:{f}"));
         }
         let exp_err = oracle::expected_stderr(&reference, &r.argv1, &r.abs_script);
-        let cmp_stdout = case.world.stdout != 3;
+        let cmp_stdout = case.world.stdout != 3 && case.world.stdout != 9;
         let mut diffs = vec![];
         if r.status != reference.status {
             diffs.push("exit status differs");
